@@ -112,6 +112,7 @@ type VC struct {
 	mathInts     int
 	heapPureMemo map[*FuncInfo]bool
 	afterHavoc   func(*State)
+	heapSorts    map[string]*Sort // every heap name used in this VC
 	pendErr      *types.Var // ghost: some callee has returned a non-nil error (directive guard-errors)
 }
 
@@ -672,6 +673,38 @@ func (c *VC) binop(op token.Token, a, b *Term, t types.Type) *Term {
 			}
 		}
 	case token.OR, token.XOR, token.AND_NOT:
+	}
+	// single-bit constant masks: bit k of x is (x div 2^k) mod 2 (two's complement: floor division)
+	for i := 0; i < 2; i++ {
+		x, m := a, b
+		if i == 1 {
+			x, m = b, a
+		}
+		if i == 1 && op == token.AND_NOT {
+			break
+		}
+		if m.Val == nil {
+			continue
+		}
+		k, isP := isPow2(m.Val)
+		if !isP || k >= w {
+			continue
+		}
+		p2 := intLit(pow2(k))
+		bit := mk("mod", sortInt, mk("div", sortInt, x, p2), intLit64(2))
+		if signed && k == w-1 {
+			continue
+		}
+		switch op {
+		case token.AND:
+			return mk("*", sortInt, bit, p2)
+		case token.OR:
+			return mk("+", sortInt, x, mk("*", sortInt, mk("-", sortInt, intLit64(1), bit), p2))
+		case token.AND_NOT:
+			return mk("-", sortInt, x, mk("*", sortInt, bit, p2))
+		case token.XOR:
+			return mk("+", sortInt, x, mk("*", sortInt, mk("-", sortInt, intLit64(1), mk("*", sortInt, intLit64(2), bit)), p2))
+		}
 	}
 	c.assumptions["int-mode: bit operation "+op.String()+" is uninterpreted"] = true
 	r := c.uf(fmt.Sprintf("bitop_%s_%d", sanitize(opName(op)), w), sortInt, a, b)
